@@ -79,6 +79,7 @@ class HistoryRunner:
             ctx.count('histories_disciplined_client' if cfg['discipline'] else 'histories_hostile_client')
             fz = self.fz = Fuzzer(w, random.Random(seed ^ 0x5EED), cfg)
             def hook(db, conn):
+                self.committing_statement = (getattr(conn, 'top_statement', None) or ('', None))[0] or ''
                 v = View(db)
                 for m in self.monitors:
                     m.on_commit(v)
